@@ -812,6 +812,10 @@ func scenC15(c *ctx) {
 		"OCRA-1:HOTP-SHA1-06:QN08", "OCRA-1:HOTP-SHA1-6:QN09", "OCRA-1:HOTP-SHA1-6:QN08-T1X", "OCRA-1:HOTP-SHA1-6:QN08-T100S", "OCRA-1:HOTP-SHA1-6:QN08-S1"} {
 		emit("other", s, false)
 	}
+	// one token damaged in every simple way (class malformed / other / sometimes well-formed: judged accordingly)
+	for _, name := range c.suiteTokenEdits() {
+		emit("toked", name, false)
+	}
 	// random garbage never in the registry: list and lookup agree
 	for i := 0; i < c.n(50, 1000); i++ {
 		emit("rnd", string(c.randBytes(c.rng.Intn(30))), false)
@@ -893,4 +897,9 @@ func (c *ctx) ocraC13(i int, key []byte, secret string) {
 	cf.T, cf.TS = true, 0
 	c.rec.Emit(doValidateOCRA(fmt.Sprintf("C13/ocra/%d/notimestep", i), secret, code, cfgSuiteArg(cf), in))
 	c.rec.Emit(doValidateOCRA(fmt.Sprintf("C13/ocra/%d/badsecret", i), "!"+secret, code, sa, in))
+	if len(secret) > 8 {
+		na := secret[:4] + []string{"\u200b", "\u017f", "\xff", "\xc3\xa9"}[i%4] + secret[4:]
+		c.rec.Emit(doValidateOCRA(fmt.Sprintf("C13/ocra/%d/badsecretna", i), na, code, sa, in))
+		c.rec.Emit(doGenerateOCRA(fmt.Sprintf("C13/ocra/%d/genbadsecretna", i), na, sa, in))
+	}
 }
